@@ -212,6 +212,11 @@ pub fn install_rules(fs: &mut Fs, rules: &RuleSet)
     user_write(fs, RULES_FILE, bytes(&render_rules(rules)));
 }
 
+pub fn install_rules_spelled(fs: &mut Fs, rules: &RuleSet, flat: bool)
+{
+    user_write(fs, RULES_FILE, bytes(&crate::model::render_rules_spelled(rules, flat)));
+}
+
 // ---------------------------------------------------------------------------
 // Reading ruler's persistent state through mirror types (bincode is positional)
 
